@@ -10,12 +10,14 @@ Local Open Scope N_scope.
 
 
 
-(* (b1, b2, impl result of AreDistinctHeadersContradicting b1 b2, impl result swapped) *)
-Definition contra_case : Type := bh * bh * bool * bool.
+(* (b1, b2, impl result of AreDistinctHeadersContradicting b1 b2, swapped; API.AreHeadersContradicting on the same two headers
+   (distinct IDs), swapped; API.AreHeadersContradicting b1 b1) *)
+Definition contra_case : Type := bh * bh * bool * bool * bool * bool * bool.
 Definition check_contra (c : contra_case) : N :=
-  let '(b1, b2, r12, r21) := c in
-  code (Bool.eqb r12 (contradicting b1 b2) && Bool.eqb r21 (contradicting b2 b1))
-       (Bool.eqb r12 (contradicting_spec b1 b2) && Bool.eqb r21 r12).
+  let '(b1, b2, r12, r21, a12, a21, self) := c in
+  code (Bool.eqb r12 (contradicting b1 b2) && Bool.eqb r21 (contradicting b2 b1)
+        && Bool.eqb a12 (contradicting b1 b2) && Bool.eqb a21 (contradicting b2 b1) && negb self)
+       (Bool.eqb r12 (contradicting_spec b1 b2) && Bool.eqb r21 r12 && Bool.eqb a12 r12 && Bool.eqb a21 r12 && negb self).
 
 Definition case_num (k : fc_case) : N :=
   match k with Identical => 0 | ValidBlock => 1 | DoubleForging => 2 | TieBreak => 3 | DifferentChain => 4 | Discard => 5 end.
@@ -27,12 +29,15 @@ Definition impl_class (bits : list bool) : N :=
   | [v; i; d; t; x] => if i then 0 else if v then 1 else if d then 2 else if t then 3 else if x then 4 else 5
   | _ => 99
   end.
+(* the oracle: the implementation's class is the unique applicable case of the order-free specification *)
+Definition spec_agrees (impl : N) (cases : list fc_case) : bool :=
+  match cases with [k] => impl =? case_num k | _ => false end.
 Definition check_fc (o : fc_obs) : N :=
   let '(c, last, cur, tl, tc, bits) := o in
   let model_bits := [is_valid_block last cur; is_identical last cur; is_double_forging last cur;
                      is_tie_break c last cur tl tc; is_different_chain last cur] in
   code (forallb (fun p => Bool.eqb (fst p) (snd p)) (combine bits model_bits) && Nat.eqb (length bits) 5)
-       (impl_class bits =? case_num (lip14_case c last cur tl tc)).
+       (spec_agrees (impl_class bits) (spec_cases c last cur tl tc)).
 
 (* search for a concrete misclassification: the dispatch order regenerated from Executer.process, applied to the
    implementation's own predicate answers, against the LIP-0014 case list *)
@@ -51,4 +56,12 @@ Definition check_dispatch (o : fc_obs) : N :=
   let '(c, last, cur, tl, tc, bits) := o in
   let order := map fst process_branches in
   code (case_num (dispatch order c last cur tl tc) =? case_num (classify c last cur tl tc))
-       (case_num (impl_dispatch order bits) =? case_num (lip14_case c last cur tl tc)).
+       (spec_agrees (case_num (impl_dispatch order bits)) (spec_cases c last cur tl tc)).
+
+(* HeaderHasPriority / Synced: (version-2?, header/tip maxHeightPrevoted, header/tip height, height, maxHeightPrevoted, impl answer) *)
+Definition prio_case : Type := bool * N * N * N * N * bool.
+Definition lex_lt_b (a b : N * N) : bool := (fst a <? fst b) || ((fst a =? fst b) && (snd a <? snd b)).
+Definition check_prio (o : prio_case) : N :=
+  let '(v2, hm, hh, height, mhp, r) := o in
+  code (Bool.eqb r (if v2 then has_priority hm hh height mhp else has_priority_v0 hh height mhp))
+       (Bool.eqb r (if v2 then lex_lt_b (mhp, height) (hm, hh) else (height <=? hh) && (mhp <=? hh))).
